@@ -543,6 +543,13 @@ class RemoteWorker(Worker, metaclass=RemoteWorkerMeta):
             self._startup_sync.wait()
 
             # Receiving runtime info is a signal for us that everything is ok
+            ready = mp.connection.wait([self._comms.parent_end, self._child.sentinel])
+            if self._comms.parent_end not in ready:
+                # the child has died before reporting anything (e.g. the client was already gone when it started),
+                # waiting for the info would block the server forever
+                logger.debug('Backend child died during start-up')
+                self._dead = True
+                raise ConnectionClosedError()
             runtime_info = self._comms.parent_end.recv()
             self._host, self._pid, self._tid, self._ident = runtime_info
             send_msg(self._ctrl_sock, runtime_info, comment='ctrl: runtime info')
